@@ -223,6 +223,17 @@ inline Mat make_data(const Case& c)
                     X(i, N - 1 - t) = (i == 1 ? (5 + t) * gap : 0) + g.gauss();
         }
     }
+    else if (kind == "multiscale")
+    {
+        // nested pairs at geometrically shrinking scales: dynamic range of pairwise distances = 10^decades
+        double dec = c.d("decades", 12);
+        for (int j = 0; j < N; ++j)
+        {
+            double s = std::pow(10.0, -dec * j / std::max(1, N - 1));
+            for (int i = 0; i < D; ++i)
+                X(i, j) = s * (i == j % D ? 1.0 : 0.3 * g.gauss());
+        }
+    }
     else if (kind == "chain")
     {
         // points along a curve with geometrically growing gaps
